@@ -121,6 +121,7 @@ class FastFakeS3(FakeS3):
             del self.requests[:]
             self.require_token = None
             self.forbidden = False
+            self.bare_errors = getattr(self, 'next_bare', False)
 
     def count(self, path):
         with self.lock:
@@ -568,6 +569,73 @@ def run_token_impl(s3, case):
     return res
 
 
+class _LaterClock:
+    """stands in for the `time` module inside katdal.chunkstore_s3: the same clock, a fixed number of seconds ahead"""
+
+    def __init__(self, ahead):
+        self._ahead = ahead
+
+    def __getattr__(self, k):
+        return getattr(time, k)
+
+    def time(self):
+        return time.time() + self._ahead
+
+
+def token_expires_later(ctx, s3):
+    """The same token string presented before and after its expiry time: accepted (and used) the first time, refused
+    at construction the second time with no request sent - the expiry is judged against the clock at each
+    presentation, not remembered from an earlier one."""
+    from katdal import chunkstore_s3
+    from katdal.chunkstore_s3 import InvalidToken, S3ChunkStore
+    bad = []
+    now = int(time.time())
+    arr = ARRAYS[0]
+    for creds in (False, True):
+        d = dict(nparts=3, hdr='ES256', sig='A' * 86, payload='obj', exp='future', prefix=[BUCKET])
+        tok = build_token(d, now + (1 if creds else 0))
+        s3.next_bare = False
+        s3.reset()
+        s3.buckets.add(BUCKET)
+        s3.require_token = tok
+        kw = dict(timeout=(2.0, SAFE_RT), retries=0, token=tok)
+        case = dict(kind='token-expires-later', creds=creds)
+        what = None
+        try:
+            store = S3ChunkStore(s3.url, **kw)
+            slices = (slice(0, 10),)
+            name, _ = store.chunk_metadata(f'{BUCKET}/x', slices, dtype=arr.dtype)
+            s3.objects['/' + name + '.npy'] = npy_bytes(arr)
+            store.get_chunk(f'{BUCKET}/x', slices, arr.dtype)
+        except Exception as e:   # noqa: BLE001
+            what = f'a token valid for another hour was refused: {type(e).__name__}: {str(e)[:80]}'
+        if what is None:
+            n_before = len(s3.requests)
+            real = chunkstore_s3.time
+            chunkstore_s3.time = _LaterClock(7200.0)
+            try:
+                try:
+                    later = S3ChunkStore(s3.url, **kw)
+                    try:
+                        later.get_chunk(f'{BUCKET}/x', slices, arr.dtype)
+                    except Exception:   # noqa: BLE001
+                        pass
+                    what = (f'the token string that was accepted before its expiry is accepted again two hours later '
+                            f'(one hour after it expired); {len(s3.requests) - n_before} request(s) were sent with it')
+                except InvalidToken:
+                    if len(s3.requests) != n_before:
+                        what = 'an expired token was refused only after a request had been sent'
+                except Exception as e:   # noqa: BLE001
+                    what = f'an expired token gave {type(e).__name__} instead of InvalidToken'
+            finally:
+                chunkstore_s3.time = real
+        ctx.tag('token-expires-later')
+        ctx.count(('token-expires-later', creds), True, sample={'token': 'expires-later'})
+        if what:
+            bad.append((case, what))
+    return bad
+
+
 def token_model_line(case):
     d, now = case['tok'], case['now']
     hdr, siglen, sigok, claims = token_model_args(d, now)
@@ -956,8 +1024,15 @@ def evaluate(ctx, s3, cases):
     """Pass 1 drives the implementation, then ONE model-driver call, pass 2 judges.
     Returns list of (case, violation text)."""
     impls, spans, lines = [], [], []
+    import zlib
     for case in cases:
         kind = case['kind']
+        # a third of the cases have their HTTP errors answered as bare status lines (no body, no Content-Type)
+        if 'bare' not in case:
+            case['bare'] = zlib.crc32(json.dumps(case, sort_keys=True, default=str).encode()) % 3 == 0
+        s3.next_bare = bool(case['bare'])
+        if case['bare']:
+            ctx.tag('bare-error-responses')
         if kind == 'word':
             impl = run_word_impl(s3, case)
             ls = word_model_lines(case, impl)
@@ -1135,6 +1210,7 @@ def run(ctx):
         cases += gen_token_cases(ctx)
         cases += gen_misc_cases(ctx)
         bad = evaluate(ctx, s3, cases)
+        bad += token_expires_later(ctx, s3)
         if not bad and not build['build_ok']:
             ctx.rng.seed(ctx.seed + 7919)
             bad = evaluate(ctx, s3, gen_word_cases(ctx) + gen_bucket_cases(ctx))
@@ -1154,6 +1230,7 @@ def replay(ctx, rep):
     for k in ('impl', 'spec', 'mirror'):
         case.pop(k, None)
     with FastFakeS3() as s3, _no_backoff():
-        for c, v in evaluate(ctx, s3, [case]):
+        found = token_expires_later(ctx, s3) if case.get('kind') == 'token-expires-later' else evaluate(ctx, s3, [case])
+        for c, v in found:
             ctx.violation(c, v)
         return common.finish(ctx, build, RULE, CHECKER, TRUSTED)
